@@ -132,8 +132,36 @@ OPS = {
     "frame_loc_labels": lambda pd, np, d, e: d.loc[[d.index[-1], d.index[0]]][["a"]],
     "sum_ratio_empty": lambda pd, np, d, e: [d[d["a"] > 100]["a"].sum() / d[d["a"] > 100]["b"].sum(),
                                              d["b"].sum() / d[d["a"] > 100]["b"].sum()],
+    "narrow_loc_set": lambda pd, np, d, e: [_try(lambda: _mut(_narrow(pd, d), lambda x: x.loc.__setitem__((x["a"] < 0, "n"), v)))
+                                            for v in (5, 500, -1)]
+                                           + [_try(lambda: _mut(_narrow(pd, d), lambda x: x.loc.__setitem__(([x.index[0]], "n"), w(x))))
+                                              for w in (lambda x: [7], lambda x: x["b"].iloc[:1].values, lambda x: x["n"].iloc[:1].values,
+                                                        lambda x: x["b"].iloc[:1])],
+    "narrow_min_merge": lambda pd, np, d, e: [str(np.minimum(_narrow(pd, d)["n"], 0).dtype),
+                                              _try(lambda: {"n": np.maximum(_narrow(pd, d)["n"], 300)}),
+                                              [str(x) for x in _narrow(pd, d)[["n", "b"]].merge(_narrow(pd, e)[["n", "a"]], on="n").dtypes.tolist()],
+                                              [str(x) for x in _narrow(pd, d)[["n", "b"]].merge(_narrow(pd, e)[["n", "a"]].drop_duplicates("n").rename(columns={"n": "m"}),
+                                                                                                    left_on="b", right_on="m", how="left").dtypes.tolist()]],
+    "sort_long": lambda pd, np, d, e: pd.DataFrame({"x": [(i * 7 + d["a"].iloc[0]) % 13 for i in range(40)], "y": list(range(40))})
+    .sort_values(["x", "y"], ascending=[True, False]),
+    "sort_long_stable": lambda pd, np, d, e: pd.DataFrame({"x": [(i * 5 + d["a"].iloc[0]) % 11 for i in range(40)], "y": list(range(40))})
+    .sort_values("x", kind="stable"),
     "dtype_kinds": lambda pd, np, d, e: [d[c].dtype.kind for c in ["k", "f", "s"]] + [str(d["s"].dtype == "object")],
 }
+
+
+def _narrow(pd, d):
+    d = d.copy()
+    d["n"] = pd.to_numeric(d["k"], downcast="integer")     # int8
+    return d
+
+
+def _try(f):
+    try:
+        r = f()
+        return [str(r["n"].dtype), r["n"].tolist()]
+    except (TypeError, OverflowError) as ex:
+        return type(ex).__name__
 
 
 def _mut(d, f):
